@@ -386,6 +386,11 @@ func runBatch(bi *buildInfo, chk *meta.Check, b meta.Batch, n int, batchSeed uin
 					}
 					if strings.HasPrefix(err.Error(), "watchdog") {
 						bo.hung = append(bo.hung, fmt.Sprintf("%s/%s idx=%d..: %v\n%s", b.World, b.Profile, jb.sp.Runs[0].Idx, err, tail(stderr, 12)))
+					} else if _, sig := crashSig(stderr); sig == "unknown" {
+						// the process ended without a result and without a Go panic or fatal error
+						// in its output: killed from outside, a full disk, a file that could not be
+						// written - trouble of the machine or the harness, not a verdict (exit 2)
+						bo.hung = append(bo.hung, fmt.Sprintf("%s/%s idx=%d..: worker ended without a result and without a panic message: %v\n%s", b.World, b.Profile, jb.sp.Runs[0].Idx, err, tail(stderr, 12)))
 					} else {
 						// the first run without a result is the one that killed the process
 						for _, rs := range jb.sp.Runs {
